@@ -91,3 +91,14 @@ def entries(tier: str = "quick") -> List[Entry]:
 def reward_shape(env: Any) -> Optional[int]:
     sh = tuple(env.reward_spec.shape)
     return None if sh == () else int(sh[0])
+
+
+def one_per_class(tier: str, seed: int) -> List[Entry]:
+    """quick tier: one configuration per environment class (which one rotates with the seed); thorough: all"""
+    es = entries(tier)
+    if tier != "quick":
+        return es
+    by: Dict[str, List[Entry]] = {}
+    for e in es:
+        by.setdefault(e.cls, []).append(e)
+    return [v[seed % len(v)] for v in by.values()]
